@@ -354,6 +354,15 @@ class Byzantine:
                     for t in pr['transforms']:
                         if r.random() < 0.2:
                             t['attrs'] = [(r.choice([14, 3, 7]), r.choice([128, 256, 7]))] + ([(14, 256)] if r.random() < 0.5 else [])
+                if r.random() < 0.35:
+                    # the same suite offered again under another number / SPI / transform order (legal, and what an initiator with several
+                    # SPIs or a sloppy policy compiler sends): proposals that compare equal must still be encoded as distinct substructures
+                    import copy
+                    twin = copy.deepcopy(r.choice(p['proposals']))
+                    twin['num'] = len(p['proposals']) + 1
+                    twin['spi'] = bytes(r.getrandbits(8) for _ in range(len(twin['spi'])))
+                    r.shuffle(twin['transforms'])
+                    p['proposals'].append(twin)
             if p['type'] in (R.P_IDi, R.P_IDr) and p['id_type'] in (1, 5):
                 p['data'] = bytes(r.getrandbits(8) for _ in range(4 if p['id_type'] == 1 else 16))
             pls.append(p)
